@@ -296,7 +296,7 @@ End PRtmp.
 
 (* ================================================================== JSON+ *)
 Module PJson.
-Import Verif.Model.JsonPlus CJson.
+Import Verif.Model.JsonPlus CJson Verif.Proofs.JsonPlusSplit.
 
 Lemma cost_index_le pat d : cost_index pat d <= lenN d + 1.
 Proof.
@@ -317,118 +317,143 @@ Proof.
     specialize (IH (length t) ltac:(subst; cbn; lia) t eq_refl). lia.
 Qed.
 
-Lemma cost_fm_le data flags : cost_fm data flags <= N.of_nat (length flags) * (lenN data + 1).
+(* a search that succeeds at position x costs x + 1 *)
+Lemma cost_index_some pat : forall d x, index pat d = Some x -> cost_index pat d = x + 1.
 Proof.
-  induction flags as [|f r IH]; cbn [cost_fm length]; [lia|].
-  pose proof (cost_index_le f data). rewrite Nat2N.inj_succ. lia.
+  induction d as [|y d IH]; intros x H; cbn [index cost_index] in *.
+  - destruct (is_prefix pat []); [inversion H; reflexivity|discriminate].
+  - destruct (is_prefix pat (y :: d)); [inversion H; reflexivity|].
+    destruct (index pat d) as [x'|]; [|discriminate]. cbn [option_map] in H.
+    assert (Hx : x = N.succ x') by (inversion H; reflexivity). rewrite (IH x' eq_refl). lia.
+Qed.
+
+Lemma cost_index_esc_some e : forall d x, index_esc e d = Some x -> cost_index_esc e d <= x + 1.
+Proof.
+  intros d. remember (length d) as n eqn:Hn. revert d Hn.
+  induction n as [n IH] using lt_wf_ind. intros d Hn x H.
+  destruct d as [|c t]; cbn [index_esc cost_index_esc] in *; [discriminate|].
+  destruct (c =? backslash).
+  - destruct t as [|c2 t']; [discriminate|].
+    destruct (index_esc e t') as [x'|] eqn:E; [|discriminate]. cbn [option_map] in H.
+    assert (Hx : x = 2 + x') by (inversion H; reflexivity).
+    specialize (IH (length t') ltac:(subst n; cbn; lia) t' eq_refl x' E). lia.
+  - destruct (is_prefix e (c :: t)); [inversion H; lia|].
+    destruct (index_esc e t) as [x'|] eqn:E; [|discriminate]. cbn [option_map] in H.
+    assert (Hx : x = N.succ x') by (inversion H; reflexivity).
+    specialize (IH (length t) ltac:(subst n; cbn; lia) t eq_refl x' E). lia.
+Qed.
+
+Lemma cost_index_end_some d e b x : index_end d e b = Some x -> cost_index_end d e b <= x + 1.
+Proof.
+  unfold index_end, cost_index_end. destruct b; intros H.
+  - exact (cost_index_esc_some e d x H).
+  - rewrite (cost_index_some e d x H). lia.
+Qed.
+Lemma cost_index_end_le d e b : cost_index_end d e b <= lenN d + 1.
+Proof. unfold cost_index_end. destruct b; [apply cost_index_esc_le|apply cost_index_le]. Qed.
+
+(* firstMatch: found at position pos -> len(flags) * (pos + 1); not found -> len(flags) * window + 1 *)
+Lemma cost_fm_at_spec flags : forall d p,
+  match fm_at d flags p with
+  | Some (pos, _) => p <= pos /\ cost_fm_at d flags = N.of_nat (length flags) * (pos - p + 1)
+  | None => cost_fm_at d flags = N.of_nat (length flags) * lenN d + 1
+  end.
+Proof.
+  induction d as [|y d IH]; intros p; cbn [fm_at cost_fm_at]; [cbn; lia|].
+  destruct (find_flag (y :: d) flags 0) as [i|].
+  - split; [lia|]. replace (p - p + 1) with 1 by lia. lia.
+  - specialize (IH (N.succ p)). destruct (fm_at d flags (N.succ p)) as [[pos i]|].
+    + destruct IH as [L E]. split; [lia|]. rewrite E. nia.
+    + rewrite IH, lenN_cons. lia.
 Qed.
 
 Lemma lenN_skipn_le (b : bytes) n : lenN (skipn n b) <= lenN b.
+Proof. rewrite <- (firstn_skipn n b) at 2. rewrite lenN_app. lia. Qed.
+
+Lemma lenN_skipn_eq (b : bytes) n : (n <= length b)%nat -> lenN (skipn n b) = lenN b - N.of_nat n.
+Proof. intros H. rewrite !lenN_length, skipn_length. lia. Qed.
+
+(* the cost of a split call in the terms of the owner's characterisation of split *)
+Lemma cost_split_some d e pos i : first_match d start_matches = Some (pos, i) ->
+  cost_split d e = 1 + 4 * (pos + 1) +
+                   cost_index_end (skipn (N.to_nat pos + length (mk_sm i)) d) (mk_em i) (negb (mk_isc i)).
 Proof.
-  rewrite <- (firstn_skipn n b) at 2. rewrite lenN_app. lia.
+  intros Hfm. destruct (fm_some_facts _ _ _ Hfm) as (Hlt & Hi & Hb & Hne).
+  unfold cost_split. rewrite Hfm. destruct d as [|d0 d']; [congruence|]. rewrite andb_false_r.
+  set (d := d0 :: d') in *.
+  pose proof (cost_fm_at_spec start_matches d 0) as F. unfold first_match in Hfm. rewrite Hfm in F.
+  destruct F as [_ F]. rewrite F. change (N.of_nat (length start_matches)) with 4. rewrite N.sub_0_r.
+  assert (Hsl : forall s, slice_from d (Z.of_N pos + lenZ (mk_sm i))%Z s
+                = Ok (skipn (N.to_nat pos + length (mk_sm i)) d)).
+  { intros s. rewrite slice_from_ok by (unfold lenZ; rewrite !lenN_length; lia). f_equal. f_equal.
+    unfold lenZ. rewrite lenN_length. lia. }
+  assert (Hi4 : i = 0%nat \/ i = 1%nat \/ i = 2%nat \/ i = 3%nat) by lia.
+  destruct Hi4 as [-> | [-> | [-> | ->]]];
+    unfold tbl;
+    cbv [mk_sm mk_em mk_isc nth nth_error start_matches end_matches is_comments
+         Verif.Gen.Gen_json.json_NewJsonPlusReader__startMatches Verif.Gen.Gen_json.json_NewJsonPlusReader__endMatches
+         Verif.Gen.Gen_json.json_NewJsonPlusReader__isComments] in *;
+    rewrite Hsl; reflexivity.
 Qed.
 
-(* ONE split call is linear in the window it is given: at most 5 passes over it *)
+Lemma cost_split_none d e : first_match d start_matches = None ->
+  cost_split d e <= 4 * lenN d + 2.
+Proof.
+  intros Hfm. unfold cost_split. destruct (e && is_nil d); [lia|]. rewrite Hfm.
+  pose proof (cost_fm_at_spec start_matches d 0) as F. unfold first_match in Hfm. rewrite Hfm in F.
+  rewrite F. change (N.of_nat (length start_matches)) with 4. lia.
+Qed.
+
+(* ONE split call is linear in the window it is given *)
 Theorem cost_split_linear data e : cost_split data e <= 5 * lenN data + 6.
 Proof.
-  unfold cost_split. destruct (e && is_nil data); [lia|].
-  pose proof (cost_fm_le data start_matches) as F.
-  change (N.of_nat (length start_matches)) with 4 in F.
-  destruct (first_match data start_matches) as [[pos i]|]; [|lia].
-  destruct (tbl start_matches i 1) as [sm|?|?]; try lia.
-  destruct (tbl end_matches i 3) as [em|?|?]; try lia.
-  destruct (tbl is_comments i 4) as [isc|?|?]; try lia.
-  unfold slice_from. destruct (_ || _); [lia|].
-  pose proof (lenN_skipn_le data (Z.to_nat (Z.of_N pos + lenZ sm))) as K.
-  unfold cost_index_end. destruct (negb isc).
-  - pose proof (cost_index_esc_le em (skipn (Z.to_nat (Z.of_N pos + lenZ sm)) data)). lia.
-  - pose proof (cost_index_le em (skipn (Z.to_nat (Z.of_N pos + lenZ sm)) data)). lia.
+  destruct (first_match data start_matches) as [[pos i]|] eqn:Hfm.
+  - rewrite (cost_split_some _ e _ _ Hfm).
+    destruct (fm_some_facts _ _ _ Hfm) as (Hlt & Hi & Hb & Hne).
+    destruct (marker_lens i Hlt) as (_ & L1 & L2).
+    pose proof (cost_index_end_le (skipn (N.to_nat pos + length (mk_sm i)) data) (mk_em i) (negb (mk_isc i))) as C.
+    rewrite lenN_skipn_eq in C by lia. rewrite lenN_length in *. lia.
+  - pose proof (cost_split_none data e Hfm). lia.
 Qed.
 
-(* the per-token rescan: every Scan costs one pass over the WINDOW, so a document held in one
-   window costs at most (number of tokens + 1) * (5 * window + 6) *)
-Lemma cost_strip_go_bound fuel : forall d, cost_strip_go fuel d <= N.of_nat fuel * (5 * lenN d + 6).
+(* a split call that delivers a token costs at most 4 steps per byte it advances over (+2):
+   the search for the start marker stops at the marker, the search for the end marker at the end *)
+Lemma split_tok_cost d adv tok : split d true = Ok (Tok adv tok) ->
+  (Z.of_N (cost_split d true) <= 4 * adv + 2)%Z.
+Proof.
+  destruct (first_match d start_matches) as [[pos i]|] eqn:Hfm.
+  - rewrite (split_some _ true _ _ Hfm), (cost_split_some _ true _ _ Hfm).
+    destruct (fm_some_facts _ _ _ Hfm) as (Hlt & Hi & Hb & Hne).
+    destruct (marker_lens i Hlt) as (_ & L1 & L2).
+    destruct (index_end _ _ _) as [k|] eqn:Ek.
+    + intros H. inversion H; subst. pose proof (cost_index_end_some _ _ _ _ Ek).
+      unfold lenZ. rewrite !lenN_length. lia.
+    + destruct (mk_req i); [discriminate|]. intros H. inversion H; subst.
+      pose proof (cost_index_end_le (skipn (N.to_nat pos + length (mk_sm i)) d) (mk_em i) (negb (mk_isc i))) as C.
+      rewrite lenN_skipn_eq in C by lia. unfold lenZ. rewrite lenN_length in *. lia.
+  - rewrite (split_none _ true Hfm). pose proof (cost_split_none d true Hfm) as C.
+    destruct d; [discriminate|]. intros H. inversion H; subst. unfold lenZ. lia.
+Qed.
+
+(* the whole document in one window: LINEAR (6 steps per byte) *)
+Lemma cost_strip_go_linear fuel : forall d, cost_strip_go fuel d <= 6 * lenN d + 6.
 Proof.
   induction fuel as [|f IH]; intros d; cbn [cost_strip_go]; [lia|].
-  pose proof (cost_split_linear d true) as S. rewrite Nat2N.inj_succ.
-  destruct (split d true) as [[|adv tok]|?|?]; try lia.
-  destruct (_ || _); [lia|].
+  pose proof (cost_split_linear d true) as S.
+  destruct (split d true) as [[|adv tok]|?|?] eqn:Sp; try lia.
+  pose proof (split_tok_cost d adv tok Sp) as T.
+  destruct ((adv <=? 0)%Z || (lenZ d <? adv)%Z) eqn:B; [lia|].
+  apply orb_false_elim in B. destruct B as [B1 B2]. apply Z.leb_gt in B1. apply Z.ltb_ge in B2.
   specialize (IH (skipn (Z.to_nat adv) d)).
-  pose proof (lenN_skipn_le d (Z.to_nat adv)). nia.
+  unfold lenZ in B2. rewrite lenN_skipn_eq in IH by (rewrite lenN_length in B2; lia).
+  lia.
 Qed.
 
-Theorem cost_strip_bound d : cost_strip d <= (lenN d + 2) * (5 * lenN d + 6).
-Proof.
-  unfold cost_strip. pose proof (cost_strip_go_bound (S (S (length d))) d) as H.
-  rewrite !Nat2N.inj_succ, <- lenN_length in H. lia.
-Qed.
+Theorem cost_strip_linear d : cost_strip d <= 6 * lenN d + 6.
+Proof. apply cost_strip_go_linear. Qed.
 
-(* ---- the per-token rescan is real: with the whole document as the window the cost is quadratic.
-   Witness family: m line comments "//\n" -- the apostrophe marker never occurs, so every token
-   searches it through all that is left of the window. ---- *)
-Fixpoint dm (m : nat) : bytes := match m with O => [] | S m' => 47 :: 47 :: 10 :: dm m' end.
-
-Lemma dm_len m : lenN (dm m) = 3 * N.of_nat m.
-Proof. induction m as [|m IH]; [reflexivity|]. cbn [dm]. rewrite !lenN_cons, IH. lia. Qed.
-
-Lemma dm_no_apos m : forall x, In x (dm m) -> x <> 39.
-Proof.
-  induction m as [|m IH]; intros x H; [destruct H|].
-  cbn [dm In] in H. destruct H as [<-|[<-|[<-|H]]]; try discriminate. exact (IH x H).
-Qed.
-
-Lemma cost_index_absent c d : (forall x, In x d -> x <> c) -> cost_index [c] d = lenN d + 1.
-Proof.
-  induction d as [|x d IH]; intros H; [reflexivity|].
-  cbn [cost_index is_prefix]. assert (E : (c =? x) = false) by (apply N.eqb_neq; intros ->; exact (H x (or_introl eq_refl) eq_refl)).
-  rewrite E. cbn [andb]. rewrite lenN_cons, IH by (intros y Hy; apply H; right; exact Hy). lia.
-Qed.
-
-Lemma cost_fm_ge data f flags : In f flags -> cost_index f data <= cost_fm data flags.
-Proof.
-  induction flags as [|g r IH]; intros H; [destruct H|]. cbn [cost_fm].
-  destruct H as [->|H]; [lia|]. specialize (IH H). lia.
-Qed.
-
-Lemma cost_split_dm m : lenN (dm (S m)) + 1 <= cost_split (dm (S m)) true.
-Proof.
-  unfold cost_split. cbn [dm is_nil andb].
-  assert (I : In [39] start_matches) by (vm_compute; auto).
-  pose proof (cost_fm_ge (dm (S m)) [39] start_matches I) as G.
-  rewrite (cost_index_absent 39 (dm (S m)) (dm_no_apos (S m))) in G. cbn [dm] in G. lia.
-Qed.
-
-Lemma split_dm m e : split (dm (S m)) e = Ok (Tok 3 []).
-Proof.
-  pose proof (Verif.Proofs.JsonPlusStrip.split_marker [] 2 [] (dm m) e eq_refl ltac:(lia)) as H.
-  cbn [dm]. change (47 :: 47 :: 10 :: dm m) with ([] ++ Verif.Proofs.JsonPlusSplit.mk_sm 2 ++ [] ++ Verif.Proofs.JsonPlusSplit.mk_em 2 ++ dm m).
-  rewrite H; [reflexivity| |reflexivity].
-  intros j mm Hj Hp. destruct j as [|[|j]]; [| |lia]; vm_compute in Hj; inversion Hj; subst mm; cbn in Hp; discriminate.
-Qed.
-
-Lemma cost_strip_go_dm : forall m fuel, (m <= fuel)%nat ->
-  3 * N.of_nat m * (N.of_nat m + 1) <= 2 * cost_strip_go fuel (dm m).
-Proof.
-  induction m as [|m IH]; intros fuel Hf; [cbn; lia|].
-  destruct fuel as [|f]; [lia|]. cbn [cost_strip_go]. rewrite split_dm.
-  pose proof (cost_split_dm m) as C. rewrite dm_len in C.
-  assert (L : lenZ (dm (S m)) = (3 * Z.of_nat (S m))%Z) by (unfold lenZ; rewrite dm_len; lia).
-  rewrite L. replace ((3 <=? 0)%Z || (3 * Z.of_nat (S m) <? 3)%Z) with false
-    by (symmetry; apply orb_false_intro; [reflexivity|apply Z.ltb_ge; lia]).
-  change (skipn (Z.to_nat 3) (dm (S m))) with (dm m).
-  specialize (IH f ltac:(lia)). rewrite Nat2N.inj_succ in *. nia.
-Qed.
-
-(* no linear bound for the whole-window scan *)
-Theorem cost_strip_quadratic_refuted : forall k : N, exists d, wf_bytes d /\ cost_strip d > k * lenN d.
-Proof.
-  intros k. exists (dm (N.to_nat (2 * k + 1))). split.
-  - unfold wf_bytes. generalize (N.to_nat (2 * k + 1)). induction n as [|n IH]; [constructor|].
-    cbn [dm]. repeat constructor; try (unfold wf_byte; lia). exact IH.
-  - unfold cost_strip. rewrite dm_len, N2Nat.id.
-    pose proof (cost_strip_go_dm (N.to_nat (2 * k + 1)) (S (S (length (dm (N.to_nat (2 * k + 1))))))) as H.
-    assert (Hl : (N.to_nat (2 * k + 1) <= S (S (length (dm (N.to_nat (2 * k + 1))))))%nat).
-    { pose proof (dm_len (N.to_nat (2 * k + 1))) as D. rewrite lenN_length in D. lia. }
-    specialize (H Hl). rewrite N2Nat.id in H. nia.
-Qed.
+(* regression witness of the window rescan that fix 73a5c57 removed: m line comments used to cost
+   >= 3m(m+1)/2 (the apostrophe marker was searched through the whole window for every token) *)
+Example strip_line_comments_cost : cost_strip (concat (repeat [47; 47; 10] 50)) <= 6 * 150 + 6.
+Proof. apply cost_strip_linear. Qed.
 End PJson.
